@@ -1,6 +1,8 @@
 //! Correspondence harness (prototype): generates cases from a seed, runs the crate, prints
 //! `id \t op \t args \t impl-result` lines for the OCaml driver.
 use sourcemap::vlq;
+static PROGRESS: std::sync::atomic::AtomicU64 = std::sync::atomic::AtomicU64::new(0);
+macro_rules! outln { ($($a:tt)*) => {{ println!($($a)*); PROGRESS.fetch_add(1, std::sync::atomic::Ordering::Relaxed); }} }
 use std::panic::{catch_unwind, AssertUnwindSafe};
 
 struct Rng(u64);
@@ -22,13 +24,13 @@ fn vlq_parse_case(id: &str, s: &[u8]) {
     let st = std::str::from_utf8(s).unwrap();
     let r = catch_unwind(AssertUnwindSafe(|| vlq::parse_vlq_segment(st)));
     let out = match r { Ok(Ok(v)) => format!("ok {}", v.iter().map(|x| x.to_string()).collect::<Vec<_>>().join(",")), Ok(Err(e)) => format!("err {}", err_name(&e)), Err(_) => "panic".into() };
-    println!("{}\tvlq_parse\t{}\t{}", id, hex(s), out);
+    outln!("{}\tvlq_parse\t{}\t{}", id, hex(s), out);
 }
 fn vlq_gen_case(id: &str, ns: &[i64]) {
     assert!(ns.iter().all(|n| n.unsigned_abs() < (1u64 << 62)), "harness must never feed |n| >= 2^62 to the VLQ writer");
     let r = catch_unwind(AssertUnwindSafe(|| vlq::generate_vlq_segment(ns)));
     let out = match r { Ok(Ok(s)) => format!("ok {}", hex(s.as_bytes())), Ok(Err(e)) => format!("err {}", err_name(&e)), Err(_) => "panic".into() };
-    println!("{}\tvlq_gen\t{}\t{}", id, ns.iter().map(|x| x.to_string()).collect::<Vec<_>>().join(","), out);
+    outln!("{}\tvlq_gen\t{}\t{}", id, ns.iter().map(|x| x.to_string()).collect::<Vec<_>>().join(","), out);
 }
 // ---------------------------------------------------------------- maps
 #[derive(Clone, Copy, Debug, PartialEq, Eq)]
@@ -81,8 +83,8 @@ fn codec_case(id: &str, nsrc: u32, nn: u32, toks: &[Tok]) {
         (sorted, m, rm, idem, dec)
     }));
     match res {
-        Ok((sorted, m, rm, idem, dec)) => println!("{}\tcodec\t{}\t{}\t{}\t{}\t{}\t{}\t{}", id, nsrc, nn, toks_str(&sorted), hex(m.as_bytes()), rm.map(|s| hex(s.as_bytes())).unwrap_or("-".into()), idem, dec),
-        Err(_) => { let mut s = toks.to_vec(); s.sort_by_key(|t| (t.dl, t.dc)); println!("{}\tcodec\t{}\t{}\t{}\tpanic\t-\t-\tpanic", id, nsrc, nn, toks_str(&s)) }
+        Ok((sorted, m, rm, idem, dec)) => outln!("{}\tcodec\t{}\t{}\t{}\t{}\t{}\t{}\t{}", id, nsrc, nn, toks_str(&sorted), hex(m.as_bytes()), rm.map(|s| hex(s.as_bytes())).unwrap_or("-".into()), idem, dec),
+        Err(_) => { let mut s = toks.to_vec(); s.sort_by_key(|t| (t.dl, t.dc)); outln!("{}\tcodec\t{}\t{}\t{}\tpanic\t-\t-\tpanic", id, nsrc, nn, toks_str(&s)) }
     }
 }
 fn lookup_case(id: &str, toks: &[Tok], l: u32, c: u32) {
@@ -94,11 +96,11 @@ fn lookup_case(id: &str, toks: &[Tok], l: u32, c: u32) {
     // index: recover through seek (seek sets next_idx = idx + 1)
     let out = match catch_unwind(AssertUnwindSafe(|| { let t = sm.lookup_token(l, c)?; let mut it = sm.tokens(); it.seek(l, c); let after: Vec<Tok> = it.map(|x| raw_of(&x)).collect(); let idx = sorted.len() - after.len() - 1; Some((idx as i64, raw_of(&t), t.get_src_col())) })) {
         Ok(Some((i, t, sc))) => format!("{} {} {}", i, tok_str(&t), sc), Ok(None) => "none".into(), Err(_) => "panic".into() };
-    println!("{}\tlookup\t{}\t{}\t{}\t{}", id, toks_str(&sorted), l, c, out);
+    outln!("{}\tlookup\t{}\t{}\t{}\t{}", id, toks_str(&sorted), l, c, out);
 }
 fn rel_case(id: &str, base: &str, target: &str) {
     let out = catch_unwind(|| sourcemap::make_relative_path(base, target)).map(|s| hex(s.as_bytes())).unwrap_or("panic".into());
-    println!("{}\trel\t{}\t{}\t{}", id, hex(base.as_bytes()), hex(target.as_bytes()), out);
+    outln!("{}\trel\t{}\t{}\t{}", id, hex(base.as_bytes()), hex(target.as_bytes()), out);
 }
 fn lines_case(id: &str, text: &str, reqs: &[i64]) {
     let sv = sourcemap::SourceView::new(text.into());
@@ -108,7 +110,7 @@ fn lines_case(id: &str, text: &str, reqs: &[i64]) {
         let o = catch_unwind(AssertUnwindSafe(|| if q == -1 { sv.line_count().to_string() } else if q == -2 { format!("[{}]", sv.lines().map(|s| hex(s.as_bytes())).collect::<Vec<_>>().join("/")) } else { sv.get_line(q as u32).map(|s| hex(s.as_bytes())).unwrap_or("-".into()) })).unwrap_or("panic".into());
         outs.push(o);
     }
-    println!("{}\tlines\t{}\t{}\t{}", id, hex(text.as_bytes()), reqs.iter().map(|x| x.to_string()).collect::<Vec<_>>().join(","), outs.join(","));
+    outln!("{}\tlines\t{}\t{}\t{}", id, hex(text.as_bytes()), reqs.iter().map(|x| x.to_string()).collect::<Vec<_>>().join(","), outs.join(","));
 }
 fn adjust_case(id: &str, orig: &[Tok], adj: &[Tok]) {
     let mut o = build_map(4, 4, orig); let a = build_map(4, 4, adj);
@@ -119,7 +121,7 @@ fn adjust_case(id: &str, orig: &[Tok], adj: &[Tok]) {
             o.adjust_mappings(&a);
             let after: Vec<String> = qs.iter().map(|q| o.lookup_token(q.0, q.1).map(|t| tok_str(&raw_of(&t))).unwrap_or("none".into())).collect();
             (o.tokens().map(|t| raw_of(&t)).collect::<Vec<_>>(), after) })) { Ok((v, after)) => format!("ok {}\t{}", toks_str(&v), after.join(",")), Err(_) => "panic\t-".into() };
-    println!("{}\tadjust\t{}\t{}\t{}", id, toks_str(&os), toks_str(&as_), out);
+    outln!("{}\tadjust\t{}\t{}\t{}", id, toks_str(&os), toks_str(&as_), out);
 }
 
 fn run_c11(r: &mut Rng, n: u64) {
@@ -178,7 +180,7 @@ fn run_rel(r: &mut Rng, n: u64) {
 fn slice_case(id: &str, line: &str, col: u32, span: u32) {
     let sv = sourcemap::SourceView::new(line.into());
     let o = catch_unwind(AssertUnwindSafe(|| sv.get_line_slice(0, col, span).map(|s| format!("={}", hex(s.as_bytes()))).unwrap_or("-".into()))).unwrap_or("panic".into());
-    println!("{}\tslice\t{}\t{}\t{}\t{}", id, hex(line.as_bytes()), col, span, o);
+    outln!("{}\tslice\t{}\t{}\t{}\t{}", id, hex(line.as_bytes()), col, span, o);
 }
 fn run_slices(r: &mut Rng, n: u64) {
     // explicit: the sum col + span at and around 2^32, starts inside a surrogate pair with and without span
@@ -252,7 +254,7 @@ fn run_rewrite(r: &mut Rng, n: u64) {
         let prefixes: Vec<&str> = match r.below(11) { 0 => vec!["/abs"], 1 => vec!["/abs/", "http://x"], 2 => vec!["~"], 3 => vec!["~", "/abs"], 4 => vec!["http://x", "~", "/abs/e"], 5 => vec!["/abs", "e"], 6 => vec!["/abs/", "c.js", "e/"], _ => vec![] };
         let opts = sourcemap::RewriteOptions { with_names: wn, with_source_contents: wc, strip_prefixes: &prefixes, ..Default::default() };
         let out = match catch_unwind(AssertUnwindSafe(|| sm.rewrite(&opts))) { Ok(Ok(m)) => format!("ok {}", map_obs(&m)), Ok(Err(e)) => format!("err {}", err_name(&e)), Err(_) => "panic".into() };
-        println!("r{}\trewrite\t{}\t{}\t{}\t{}\t{}", i, input, wn as u8, wc as u8, prefixes.iter().map(|p| hex(p.as_bytes())).collect::<Vec<_>>().join(","), out);
+        outln!("r{}\trewrite\t{}\t{}\t{}\t{}\t{}", i, input, wn as u8, wc as u8, prefixes.iter().map(|p| hex(p.as_bytes())).collect::<Vec<_>>().join(","), out);
     }
 }
 fn run_setters(r: &mut Rng, n: u64) {
@@ -277,7 +279,7 @@ fn run_setters(r: &mut Rng, n: u64) {
             let wr = opt_hex(v.get("sourceRoot").and_then(|x| x.as_str()));
             let m2 = sourcemap::SourceMap::from_slice(&o1).unwrap(); let mut o2 = vec![]; m2.to_writer(&mut o2).unwrap(); let m3 = sourcemap::SourceMap::from_slice(&o2).unwrap();
             (format!("{}|{}", wr, ws), (0..m3.get_source_count()).map(|k| opt_hex(m3.get_source(k))).collect::<Vec<_>>().join(",")) })) { Ok(x) => x, Err(_) => ("panic".into(), "panic".into()) } };
-        println!("r{}\tsetters\t{}\t{}\t{}\t{}\t{}", i, input, ops.join(";"), written, after2, if panicked { "panic".to_string() } else { format!("ok {}", map_obs(&sm)) });
+        outln!("r{}\tsetters\t{}\t{}\t{}\t{}\t{}", i, input, ops.join(";"), written, after2, if panicked { "panic".to_string() } else { format!("ok {}", map_obs(&sm)) });
     }
 }
 fn run_ram(r: &mut Rng, n: u64) {
@@ -309,12 +311,12 @@ fn run_ram(r: &mut Rng, n: u64) {
                     let it: Vec<String> = b.iter_modules().take(8).map(|x| match x { Ok(m) => format!("{}={}", m.id(), hex(m.data())), Err(_) => "err".into() }).collect();
                     format!("ok {} {} {} {} {}", b.module_count(), b.startup_code().map(|s| hex(s)).unwrap_or("err".into()), ms.join(","), isb, it.join(",")) }
             } })) { Ok(s) => s, Err(_) => "panic".into() };
-        println!("r{}\tram\t{}\t{}\t{}\t{}", i, hex(&v), if corrupt < 4 { 1 } else { 0 }, abstract_descr, out);
+        outln!("r{}\tram\t{}\t{}\t{}\t{}", i, hex(&v), if corrupt < 4 { 1 } else { 0 }, abstract_descr, out);
     }
 }
 fn locate_case(id: &str, text: &[u8]) {
     let out = match catch_unwind(AssertUnwindSafe(|| sourcemap::locate_sourcemap_reference_slice(text))) { Ok(Ok(None)) => "none".into(), Ok(Ok(Some(sourcemap::SourceMapRef::Ref(u)))) => format!("ref {}", hex(u.as_bytes())), Ok(Ok(Some(sourcemap::SourceMapRef::LegacyRef(u)))) => format!("legacy {}", hex(u.as_bytes())), Ok(Err(_)) => "err".into(), Err(_) => "panic".into() };
-    println!("{}\tlocate\t{}\t{}", id, hex(text), out);
+    outln!("{}\tlocate\t{}\t{}", id, hex(text), out);
 }
 fn run_locate(r: &mut Rng, n: u64) {
     // explicit: the reference line starts shortly before / at / after a multiple of 8192 bytes, after one long line or many short ones
@@ -329,7 +331,7 @@ fn run_locate(r: &mut Rng, n: u64) {
         let k = r.below(5); let mut text = String::new();
         for j in 0..k { text.push_str(parts[r.below(parts.len() as u64) as usize]); if j + 1 < k || r.below(2) == 0 { text.push_str(if r.below(2) == 0 { "\n" } else { "\r\n" }); } }
         let out = match sourcemap::locate_sourcemap_reference_slice(text.as_bytes()) { Ok(None) => "none".into(), Ok(Some(sourcemap::SourceMapRef::Ref(u))) => format!("ref {}", hex(u.as_bytes())), Ok(Some(sourcemap::SourceMapRef::LegacyRef(u))) => format!("legacy {}", hex(u.as_bytes())), Err(_) => "err".into() };
-        println!("r{}\tlocate\t{}\t{}", i, hex(text.as_bytes()), out);
+        outln!("r{}\tlocate\t{}\t{}", i, hex(text.as_bytes()), out);
     }
 }
 struct Chunked<'a> { data: &'a [u8], pos: usize, sizes: Vec<usize>, k: usize }
@@ -369,7 +371,7 @@ fn run_hdr(r: &mut Rng, n: u64) {
             let url = format!("data:application/json;{}base64,{}", if i % 2 == 0 { "" } else { "charset=utf-8;" }, own_b64(&doc));
             let c = res(sourcemap::decode_data_url(&url));
             format!("{}\t{}\t{}\t{}\t{}", a, b, da as u8, db as u8, c) })).unwrap_or("panic\tpanic\t0\t0\tpanic".into());
-        println!("r{}\thdr\t{}\t{}\t{}", i, hex(&doc), sizes.iter().map(|x| x.to_string()).collect::<Vec<_>>().join(","), out);
+        outln!("r{}\thdr\t{}\t{}\t{}", i, hex(&doc), sizes.iter().map(|x| x.to_string()).collect::<Vec<_>>().join(","), out);
     }
 }
 
@@ -401,7 +403,7 @@ fn run_index(r: &mut Rng, n: u64) {
             let a = match catch_unwind(AssertUnwindSafe(|| idx.lookup_token(q.0, q.1).map(|t| view(&t)))) { Ok(Some(v)) => v, Ok(None) => "none".into(), Err(_) => "panic".into() };
             let b = match &flat { Ok(Ok(m)) => match catch_unwind(AssertUnwindSafe(|| m.lookup_token(q.0, q.1).map(|t| view(&t)))) { Ok(Some(v)) => v, Ok(None) => "none".into(), Err(_) => "panic".into() }, _ => "noflat".into() };
             outs.push(format!("{}~{}", a, b)); }
-        println!("r{}\tindex\t{}\t{}\t{}\t{}", i, descr, qs.join(","), flat_s, outs.join(","));
+        outln!("r{}\tindex\t{}\t{}\t{}\t{}", i, descr, qs.join(","), flat_s, outs.join(","));
     }
 }
 fn run_fname(r: &mut Rng, n: u64) { run_fname_gen(r, n, false) }
@@ -414,7 +416,7 @@ fn run_fname_gen(r: &mut Rng, n: u64, any_col: bool) {
             for j in 0..d { if two_lines && j == d / 2 { text.push('\n'); line = 1; col = 0; } text.push_str(" a"); col += 2; toks.push(Tok { dl: line, dc: col - 1, sl: 0, sc: 0, src: 0, name: if j % 3 == 0 { 3 } else { !0 }, range: false }); }
             let sv = sourcemap::SourceView::new(text.clone().into()); let sm = build_map(1, 4, &toks); let sorted: Vec<Tok> = sm.tokens().map(|t| raw_of(&t)).collect(); let ti = sorted.len() - 1;
             let out = match catch_unwind(AssertUnwindSafe(|| sv.get_original_function_name(sm.get_token(ti).unwrap(), "n").map(|s| s.to_string()))) { Ok(Some(s)) => s.trim_start_matches('n').to_string(), Ok(None) => "none".into(), Err(_) => "panic".into() };
-            println!("w{}_{}\tfname\t{}\t{}\t{}\t{}\t{}", d, two_lines as u8, hex(text.as_bytes()), toks_str(&sorted), ti, hex(b"n"), out);
+            outln!("w{}_{}\tfname\t{}\t{}\t{}\t{}\t{}", d, two_lines as u8, hex(text.as_bytes()), toks_str(&sorted), ti, hex(b"n"), out);
         } }
     }
     let words = ["function", "a", "ab", "\u{e9}", "a\u{e9}", "\u{1D49C}x", "$", "_1", "x\u{200d}y", "(", ")", "{", "}", "\u{1F44C}", "1", " ", "\t", "\u{a0}", ";", "function", "function", "function", "var", ","];
@@ -469,7 +471,7 @@ fn run_fname_gen(r: &mut Rng, n: u64, any_col: bool) {
                     vec![a, b, cc, d] })).unwrap_or(vec!["panic".into()]);
                 if apis.iter().any(|x| x != &out) { out = format!("api-mismatch:{}:{}", out, apis.join("/")); }
             }
-            println!("r{}_{}\t{}\t{}\t{}\t{}\t{}\t{}", i, q, if any_col { "fname_any" } else { "fname" }, hex(text.as_bytes()), toks_str(&sorted), ti, hex(name.as_bytes()), out);
+            outln!("r{}_{}\t{}\t{}\t{}\t{}\t{}\t{}", i, q, if any_col { "fname_any" } else { "fname" }, hex(text.as_bytes()), toks_str(&sorted), ti, hex(name.as_bytes()), out);
         }
     }
 }
@@ -576,7 +578,7 @@ fn run_decode(r: &mut Rng, n: u64, with_faults: bool) {
                 format!("ok {}#{}", map_obs(&sm), sm.get_debug_id().map(|d| d.to_string()).unwrap_or("-".into())) }
             Ok(Ok(_)) => "ok other-kind".into(), Ok(Err(e)) => format!("err {}", err_name(&e)), Err(_) => "panic".into() };
         let lst = |v: Vec<String>| format!("L{}", v.join(","));
-        println!("r{}\tdecode\t{}\t{}\t{}\t{}\t{}\t{}\t{}\t{}\t{}\t{}\t{}\t{}\t{}",
+        outln!("r{}\tdecode\t{}\t{}\t{}\t{}\t{}\t{}\t{}\t{}\t{}\t{}\t{}\t{}\t{}",
             i, match &file { None => "-".into(), Some(serde_json::Value::String(s)) => format!("={}", hex(s.as_bytes())), Some(_) => "n".to_string() },
             if omit_sources { "-".into() } else { lst(sources.iter().map(|s| s.map(|x| format!("={}", hex(x.as_bytes()))).unwrap_or("null".into())).collect()) },
             root.map(|x| format!("={}", hex(x.as_bytes()))).unwrap_or("-".into()),
@@ -607,7 +609,7 @@ fn run_dispatch(r: &mut Rng, n: u64) {
         let kind = |d: &sourcemap::DecodedMap| -> String { match d { sourcemap::DecodedMap::Regular(_) => "regular".into(), sourcemap::DecodedMap::Hermes(_) => "hermes".into(),
             sourcemap::DecodedMap::Index(ix) => format!("index{}{}", ix.get_section_count(), ix.sections().map(|s| match s.get_sourcemap() { Some(sourcemap::DecodedMap::Index(_)) => ":index", Some(sourcemap::DecodedMap::Regular(_)) => ":regular", Some(sourcemap::DecodedMap::Hermes(_)) => ":hermes", None => ":none" }).collect::<String>()) } };
         let out = match catch_unwind(AssertUnwindSafe(|| sourcemap::decode_slice(doc.as_bytes()))) { Ok(Ok(d)) => kind(&d), Ok(Err(e)) => format!("err {}", err_name(&e)), Err(_) => "panic".into() };
-        println!("d{}\tdispatch\t{}\t{}\t{}\t{}\t{}", i, sections, fb.len().min(9), with_mappings as u8, hex(doc.as_bytes()), out);
+        outln!("d{}\tdispatch\t{}\t{}\t{}\t{}\t{}", i, sections, fb.len().min(9), with_mappings as u8, hex(doc.as_bytes()), out);
     }
 }
 // ---- C14: Hermes / Metro function maps ----
@@ -684,7 +686,7 @@ fn run_hermes(r: &mut Rng, n: u64) {
                     Ok(Ok(_)) => vec!["other-kind".into()], Ok(Err(_)) => vec!["err".into()], Err(_) => vec!["panic".into()] } } else { per_tok.clone() };
                 format!("ok {}~{}~{}~{}", per_tok.join(","), per_off.join(","), after.join(","), reser.join(",")) }
             Ok(Ok(_)) => "ok other-kind".into(), Ok(Err(e)) => format!("err {}", err_name(&e)), Err(_) => "panic".into() };
-        println!("r{}\thermes\t{}\t{}\t{}\t{}", i, descr, fb_descr.join("#"), offsets.iter().map(|x| x.to_string()).collect::<Vec<_>>().join(","), out);
+        outln!("r{}\thermes\t{}\t{}\t{}\t{}", i, descr, fb_descr.join("#"), offsets.iter().map(|x| x.to_string()).collect::<Vec<_>>().join(","), out);
     }
 }
 
@@ -755,10 +757,13 @@ fn run_crash(r: &mut Rng, n: u64) {
                 serde_json::to_vec(&serde_json::Value::Object(m)).unwrap() }
         };
         let mut r2 = Rng(r.next());
+        // announced first, so that an abort (allocation failure) or a hang is attributable to this input
+        outln!("BEGIN\tr{}\tcrash\t{}\t{}", i, kind, hex(&input[..input.len().min(4000)]));
+        PROGRESS.fetch_add(1, std::sync::atomic::Ordering::Relaxed);
         let class = match catch_unwind(AssertUnwindSafe(|| { let _ = sourcemap::is_sourcemap_slice(&input); let _ = sourcemap::ram_bundle::is_ram_bundle_slice(&input);
                 if let Ok(t) = std::str::from_utf8(&input) { let sv = sourcemap::SourceView::new(t.into()); let _ = (sv.line_count(), sv.get_line(1), sv.get_line_slice(0, 1, u32::MAX), sv.sourcemap_reference().is_ok()); }
                 match sourcemap::decode_slice(&input) { Ok(dm) => exercise(&dm, &mut r2), Err(_) => "err" } })) { Ok(c) => c.to_string(), Err(_) => "panic".into() };
-        println!("r{}\tcrash\t{}\t{}\t{}", i, kind, hex(&input[..input.len().min(4000)]), class);
+        outln!("r{}\tcrash\t{}\t{}\t{}", i, kind, hex(&input[..input.len().min(4000)]), class);
     }
 }
 
@@ -777,7 +782,7 @@ fn run_dataurl(r: &mut Rng, n: u64) {
                 let via_view = match sv.sourcemap_reference() { Ok(Some(rf)) => match rf.get_embedded_sourcemap() { Ok(Some(m)) => show(Ok(m)), Ok(None) => "not-a-data-url".into(), Err(e) => format!("err {}", err_name(&e)) }, Ok(None) => "no-ref".into(), Err(_) => "locate-err".into() };
                 (url.split(',').next().unwrap_or("").to_string(), show(back), show(direct), embedded, via_view) })) {
             Ok((pre, a, b, c, d)) => format!("{}\t{}\t{}\t{}\t{}", hex(pre.as_bytes()), a, b, c, d), Err(_) => "-\tpanic\tpanic\tpanic\tpanic".into() };
-        println!("d{}\tdataurl\t{}", i, out);
+        outln!("d{}\tdataurl\t{}", i, out);
     }
 }
 
@@ -792,7 +797,7 @@ fn run_keys(r: &mut Rng, n: u64) {
         let text = String::from_utf8(out.clone()).unwrap();
         let mut keys: Vec<(usize, String)> = v.as_object().unwrap().iter().map(|(k, val)| (text.find(&format!("\"{}\":", k)).unwrap_or(usize::MAX), format!("{}{}", k, if val.is_null() { ":null" } else { "" }))).collect();
         keys.sort();
-        println!("k{}\tkeys\t{}\t{}\t{}", i, map_in(&sm), if dbg { 1 } else { 0 }, keys.into_iter().map(|x| x.1).collect::<Vec<_>>().join(","));
+        outln!("k{}\tkeys\t{}\t{}\t{}", i, map_in(&sm), if dbg { 1 } else { 0 }, keys.into_iter().map(|x| x.1).collect::<Vec<_>>().join(","));
     }
 }
 
@@ -905,9 +910,9 @@ fn run_roundtrip(r: &mut Rng, n: u64) {
             Some((before, after, idem, detected, shape, model_io))
         }));
         match res {
-            Ok(Some((before, after, idem, detected, shape, model_io))) => println!("t{}\troundtrip\t{}\t{}\t{}\t{}\t{}\t{}\t{}", i, kind, before, after, idem, detected as u8, shape, model_io),
+            Ok(Some((before, after, idem, detected, shape, model_io))) => outln!("t{}\troundtrip\t{}\t{}\t{}\t{}\t{}\t{}\t{}", i, kind, before, after, idem, detected as u8, shape, model_io),
             Ok(None) => {}
-            Err(_) => println!("t{}\troundtrip\t{}\tpanic\tpanic\t-\t0\t-\t-\t-\t0\t-", i, kind),
+            Err(_) => outln!("t{}\troundtrip\t{}\tpanic\tpanic\t-\t0\t-\t-\t-\t0\t-", i, kind),
         }
     }
 }
@@ -1007,7 +1012,7 @@ fn run_api(r: &mut Rng, n: u64, group: &str) {
             (failed, descr)
         }));
         match res { Ok((f, d)) => { failed = f; descr = d; } Err(_) => failed.push("panic".into()) }
-        println!("a{}\tapi\t{}\t{}\t{}", i, group, failed.join(","), descr.chars().take(600).collect::<String>());
+        outln!("a{}\tapi\t{}\t{}\t{}", i, group, failed.join(","), descr.chars().take(600).collect::<String>());
     }
 }
 
@@ -1023,7 +1028,7 @@ fn run_order(r: &mut Rng, n: u64) {
             assert!(by_index == via_new && sm.get_token(via_new.len()).is_none() && sm.tokens().enumerate().all(|(k, t)| t.get_raw_token() == sm.get_token(k).unwrap().get_raw_token()), "get_token disagrees with iteration");
             let via_builder: Vec<Tok> = build_map(2, 2, &toks).tokens().map(|t| raw_of(&t)).collect();
             (via_new, via_builder) })) { Ok((a, b)) => format!("{}\t{}", toks_str(&a), toks_str(&b)), Err(_) => "panic\tpanic".into() };
-        println!("o{}\torder\t{}\t{}", i, toks_str(&toks), out);
+        outln!("o{}\torder\t{}\t{}", i, toks_str(&toks), out);
     }
 }
 // ---- C13: builder histories: interning, returned ids, finished map ----
@@ -1052,12 +1057,19 @@ fn run_builder(r: &mut Rng, n: u64) {
         let sm = b.into_sourcemap();
         // what the finished map reports, by strings: root, debug id, and every token as a resolved view (sorted: finishing sorts by position)
         let mut views: Vec<String> = sm.tokens().map(|t| view_of(&t)).collect(); views.sort();
-        println!("b{}\tbuilder\t{}\t{}\t{}\t{}\t{}\t{}", i, ops.join(";"), rets.join(","), opt_hex(sm.get_source_root()), sm.get_debug_id().map(|d| d.to_string()).unwrap_or("-".into()), views.join(";"), map_obs(&sm));
+        outln!("b{}\tbuilder\t{}\t{}\t{}\t{}\t{}\t{}", i, ops.join(";"), rets.join(","), opt_hex(sm.get_source_root()), sm.get_debug_id().map(|d| d.to_string()).unwrap_or("-".into()), views.join(";"), map_obs(&sm));
     }
 }
 
+/// a case that neither returns nor panics within the budget is a hang: say which case, then exit(3)
+fn start_watchdog(budget_ms: u64) {
+    std::thread::spawn(move || { let mut last = 0u64; let mut since = std::time::Instant::now();
+        loop { std::thread::sleep(std::time::Duration::from_millis(200)); let p = PROGRESS.load(std::sync::atomic::Ordering::Relaxed);
+            if p != last { last = p; since = std::time::Instant::now(); } else if since.elapsed().as_millis() as u64 > budget_ms { eprintln!("HANG: no case finished for {} ms after {} cases", budget_ms, p); std::process::exit(3); } } });
+}
 fn main() {
     std::panic::set_hook(Box::new(|_| {}));
+    start_watchdog(std::env::var("CASE_BUDGET_MS").ok().and_then(|x| x.parse().ok()).unwrap_or(20_000));
     let args: Vec<String> = std::env::args().collect();
     let prop = args.get(1).map(|s| s.as_str()).unwrap_or("C11");
     let seed: u64 = args.get(2).and_then(|s| s.parse().ok()).unwrap_or(1);
